@@ -56,7 +56,10 @@ func (g *FuncGen) execInstr(in ssa.Instruction) {
 		r := g.freshRef()
 		mt := x.Type().Underlying().(*types.Map)
 		dom, _ := g.sc.mapComps(mt)
-		g.assume(fmt.Sprintf("(= (select %s %s) ((as const (Array %s Bool)) false))", g.get(g.st, dom), r, g.sc.sortOf(mt.Key())))
+		ks := g.sc.sortOf(mt.Key())
+		g.assume(fmt.Sprintf("(= (select %s %s) ((as const (Array %s Bool)) false))", g.get(g.st, dom), r, ks))
+		lt, _ := g.sc.mapLen(ks, fmt.Sprintf("((as const (Array %s Bool)) false)", ks))
+		g.assume(fmt.Sprintf("(= %s 0)", lt))
 		g.vals[x] = r
 	case *ssa.MakeChan:
 		g.vals[x] = g.freshRef()
@@ -467,7 +470,9 @@ func (g *FuncGen) execIndexAddr(x *ssa.IndexAddr) {
 	case *types.Slice:
 		s := g.val(x.X)
 		g.oblig("index", "", fmt.Sprintf("(and (<= 0 %s) (< %s (s-len %s)))", idx, idx, s), x.Pos(), nil, "index out of range")
-		g.addrs[x] = g.elemAddr(xt.Elem(), fmt.Sprintf("(s-arr %s)", s), fmt.Sprintf("(+ (s-off %s) %s)", s, idx), x)
+		pos, fact := g.sc.sliceIdx(s, idx)
+		g.assume(fact)
+		g.addrs[x] = g.elemAddr(xt.Elem(), fmt.Sprintf("(s-arr %s)", s), pos, x)
 	case *types.Pointer:
 		at := xt.Elem().Underlying().(*types.Array)
 		base := g.addrOf(x.X)
@@ -826,7 +831,11 @@ func (g *FuncGen) execMapUpdate(x *ssa.MapUpdate) {
 	g.oblig("nil", "", fmt.Sprintf("(not (= %s 0))", m), x.Pos(), nil, "assignment to entry in nil map")
 	dom, val := g.sc.mapComps(mt)
 	d := g.get(g.st, dom)
-	g.update(dom, fmt.Sprintf("(store %s %s (store (select %s %s) %s true))", d, m, d, m, k))
+	ks := g.sc.sortOf(mt.Key())
+	od := g.defConst("mdom", "(Array "+ks+" Bool)", fmt.Sprintf("(select %s %s)", d, m))
+	nd := g.defConst("mdom", "(Array "+ks+" Bool)", fmt.Sprintf("(store %s %s true)", od, k))
+	g.assumeAll(g.sc.mapLenStore(ks, od, nd, k, true))
+	g.update(dom, fmt.Sprintf("(store %s %s %s)", d, m, nd))
 	vv := g.get(g.st, val)
 	g.update(val, fmt.Sprintf("(store %s %s (store (select %s %s) %s %s))", vv, m, vv, m, k, v))
 }
